@@ -214,9 +214,11 @@ Print Assumptions C06_stitch_complete.
    if/elif/else, while, for-range, break, write, sleep - Lang/Transl.v, the model of
    _handle_assignment_ast and the promotion machinery that unit C01_stmt ties to the real parser):
    in the emitted IR every assignment targets a variable that is visible under C++ block scoping -
-   a global, a local declared earlier in an enclosing block, or the for variable; promoted
+   a global (every name first assigned at setup depth 0 or at the body level of the main loop, directly or
+   hoisted there), a local declared earlier in an enclosing block, or the for variable; promoted
    declarations precede the control statement they were hoisted out of, and the rewriters turn
-   the inner declarations into assignments without breaking this.  In setup() always; in loop()
+   the inner declarations into assignments (and drop the hoisted ones an outer block hoists again)
+   without breaking this.  In setup() always; in loop()
    provided setup() has no top-level local declaration (guard; see the next theorem).
    Not covered: targets of augmented assignments (x op= e never declares: Python's NameError when
    x is unbound), reads inside expressions, redeclaration in one block, the tuple temporaries. *)
@@ -249,9 +251,18 @@ Theorem C06_rewriters_preserve_scoping : forall (aug : bool) (pn : list StmtAst.
 Proof. exact (fun aug pn l V V' I P H => conj (scoped_map_rewrite_if aug pn l V V' I P H) (scoped_map_rewrite_deep aug pn l V V' I P H)). Qed.
 Print Assumptions C06_rewriters_preserve_scoping.
 
+(* ... and so does dropping the hoisted declaration of a name the enclosing block hoists again (since the repair of
+   F-C01-hoisted-decl-reinit both rewriters drop it instead of turning it into `x = <default>;`): the dropped
+   declaration's name is visible anyway (it is declared further out) *)
+Theorem C06_dropping_hoisted_preserves_scoping : forall (aug : bool) (pn : list StmtAst.ident) (l : list cnode) (V V' : list StmtAst.ident),
+  incl V V' -> incl pn V' -> scoped_b aug V l = true ->
+  scoped_b aug V' (map (rewrite_if pn) (drop_hoisted pn l)) = true /\ scoped_b aug V' (map (rewrite_deep pn) (drop_hoisted pn l)) = true.
+Proof. exact (fun aug pn l V V' I P H => conj (scoped_rewrite_if_drop aug pn l V V' I P H) (scoped_rewrite_deep_drop aug pn l V V' I P H)). Qed.
+Print Assumptions C06_dropping_hoisted_preserves_scoping.
+
 Example C06_scope_nonvacuous :
   exists c, transl scope_demo = Some c /\ topdecls (c_setup c) = [] /\ scoped_prog false c = true /\
-            length (c_globals c) = 3%nat /\ length (c_loop c) = 8%nat.
+            length (c_globals c) = 5%nat /\ length (c_loop c) = 7%nat.
 Proof. exact scope_demo_ok. Qed.
 Print Assumptions C06_scope_nonvacuous.
 
